@@ -12,6 +12,10 @@ def call(mod, pb):
     return mod.solve_masyu(pb["h"], pb["w"], pb["grid"])
 
 
+def ncand(pb):
+    return 2 ** L.n_loop_edges(pb['h'], pb['w'])
+
+
 def encode(pb):
     return [[pb["h"], pb["w"]], L.flat(pb["grid"])]
 
@@ -25,7 +29,7 @@ def families(tier, rng):
         for (h, w) in [(2, 3), (3, 2)]:
             for g in L.sample(rng, L.all_grids(h, w, VALUES), 60):
                 yield {"h": h, "w": w, "grid": g}
-    for (h, w) in [(3, 3), (2, 4), (4, 2), (3, 4), (4, 3)]:
+    for (h, w) in [(3, 3), (2, 4), (4, 2), (2, 5)] + ([(3, 4), (4, 3)] if th else []):
         for _ in range(150 if th else 25):
             yield {"h": h, "w": w, "grid": L.random_grid(rng, h, w, VALUES, 0.6)}
 
